@@ -583,6 +583,12 @@ pub fn run(tier: &str) -> i32 {
     let mut sweep_docs = docs::names_universe(th);
     sweep_docs.extend(docs::universe(2, 2, &[json!(1), json!("a")], &["b", "a"]));
     sweep_docs.extend(docs::panel());
+    // deeper than a parser accepts, and wide containers around powers of two
+    sweep_docs.extend(docs::deep_docs(false).into_iter().step_by(if th { 1 } else { 3 }));
+    for n in [16usize, 17, 64, 65, 256, 257] {
+        sweep_docs.push(Value::Array((0..n).map(|i| if i % 4 == 0 { json!([i]) } else { json!(i) }).collect()));
+        sweep_docs.push(Value::Object((0..n).map(|i| (format!("k{}", i), if i % 4 == 0 { json!({"a": i}) } else { json!(i) })).collect()));
+    }
     // pointer-syntax look-alikes
     sweep_docs.extend([
         json!({"0": 1, "1": [2]}),
